@@ -245,9 +245,7 @@ def verdict (e : Expect) (r : Req) : Verdict :=
      | some p => decide' junk ⟨[op], .pathOnly p⟩
      | none => .malformed)
   | .nameVar op =>
-    (match varSeg "name" e.pat r.segs with
-     | some s => decide' junk ⟨[op], .str s.txt⟩
-     | none => .malformed)
+    decide' junk ⟨[op], .str (match varSeg "name" e.pat r.segs with | some s => s.txt | none => "")⟩
   | .statusFilter op opl =>
     (match getq r.query "filter" with
      | .valid (.str m) => decide' (optsBad r || localBad r) ⟨localNames r op opl, .num m⟩
